@@ -20,6 +20,8 @@ NEGATIVE = [  # (cfg, invariant that must be violated, what it shows)
     ("Neg_AppImage_leak.cfg", "PrivNotWritten", "a written private key is caught"),
     ("Neg_AppImage_signpath.cfg", "SigVerifies", "signing something else is caught"),
     ("Neg_AppImage_twopubs.cfg", "SinglePub", "a second public key file is caught"),
+    ("Neg_AppImage_tailtwice.cfg", "HashedLength",
+     "hashing an area twice when it is a whole number of 4096-byte blocks is caught once sizes vary"),
     ("Neg_AppImage_reusepath.cfg", "NeverReusesPath", "-o paths get reused for other images"),
     ("Neg_AppImage_stale.cfg", "AuthBinds", "keeping the authorization already at the -o path is caught"),
 ]
@@ -145,6 +147,11 @@ def run(ctx):
         "directory after the run + every path opened for writing (audit hook) during it",
         "ledgerblue's IntelHexParser is a library, modelled in AppImageProps.PStep; its observed area "
         "list is compared with the model's as drift, not as a verdict",
+        "size classes: the model's units get real lengths per class (small = 1 byte; page_multiple / "
+        "zone_multiple / one_below / one_above put area lengths on, below and above 4096, 8192, 12288 and "
+        "65536 bytes); every layout of class small is replayed, of the other classes a seeded sample; other "
+        "block sizes a tool might treat specially are only met by the random tier's boundary lengths "
+        "(255..65537 around every power of two)",
         "bitcoin.core stand-in is loaded (imports only; not exercised)",
     ]
     rng = ctx.rng
@@ -161,12 +168,12 @@ def run(ctx):
     if never:
         raise core.MachineryError("vacuity: actions never taken: %s" % never)
     res.coverage["uncovered_actions"] = never
-    # the other bounds (design check only: quick also checks the thorough tier's images -- 2 x 3 bytes,
-    # R = 3, 1..4 images per run; thorough also checks three runs in a row) and the negative
+    # thorough also checks three runs in a row (design check only); that and the negative
     # configurations run in the background while the behaviours are replayed; collected before judging
     pool = cf.ThreadPoolExecutor(max_workers=3)
-    extra_cfgs = ctx.pick(["MC_AppImage_full.cfg"], ["MC_AppImage_runs3.cfg"])
+    extra_cfgs = ctx.pick([], ["MC_AppImage_runs3.cfg"])
     extra_jobs = [(cfg, pool.submit(tlc.check, "MC_AppImage", cfg, workers=3)) for cfg in extra_cfgs]
+    blind_job = pool.submit(tlc.run, "MC_AppImage", "MC_AppImage_tailtwice_small.cfg", workers=1, heap="1g")
     neg_jobs = [(item, pool.submit(tlc.run, "MC_AppImage", item[0], workers=1, heap="1g")) for item in NEGATIVE]
 
     def collect_background():
@@ -182,10 +189,16 @@ def run(ctx):
                 raise core.MachineryError("negative configuration %s: %s not violated (%s)" % (cfg, inv, rn.error))
             negs.append("%s: %s violated (%s)" % (cfg, inv, why))
             res.checker_cmds.append(rn.cmd)
+        rb = blind_job.result()
+        if not rb.ok or rb.violated:
+            raise core.MachineryError("MC_AppImage_tailtwice_small.cfg expected to hold: %s %s" % (rb.violated, rb.error))
+        negs.append("MC_AppImage_tailtwice_small.cfg: the same defective variant satisfies HashInputOk and "
+                    "HashedLength when SizeClasses = {small} (why the size classes are an Env choice)")
+        res.checker_cmds.append(rb.cmd)
         res.coverage["negative_configurations"] = negs
         pool.shutdown()
 
-    # 2. every complete file and every signing session of the model
+    # 2. every complete file x size class, every signing session and message sequence of the model
     gen_cfg = ctx.pick("Gen_AppImage.cfg", "Gen_AppImage_full.cfg")
     behaviours, rg = tlc.generate("GenAppImage", gen_cfg, timeout=3000)
     res.add_tlc(rg, "%s behaviours" % gen_cfg)
@@ -196,8 +209,16 @@ def run(ctx):
     res.coverage["model_layouts"] = len(mlayouts)
     res.coverage["model_sessions"] = len(msessions)
     res.coverage["model_message_sequences"] = len(mauths)
+    del behaviours
     if not mlayouts or not msessions or not mauths:
         raise core.MachineryError("generation produced no layouts or no sessions")
+    sizes = sorted({b["size"] for b in mlayouts})
+    if "small" not in sizes or len(sizes) < 4:
+        raise core.MachineryError("size classes missing from the generated layouts: %s" % sizes)
+    ulens = {b["size"]: b["ulen"] for b in mlayouts}
+    cov_hash = {s: 0 for s in sizes}        # layouts through compute / signapp hash / signapp message
+    cov_sign = {s: 0 for s in sizes}        # images signed by signonetime
+    cov_auth = {s: 0 for s in sizes}        # message sequences
 
     traces, meta = [], {}
 
@@ -206,61 +227,103 @@ def run(ctx):
         traces.append(t)
         meta[t["id"]] = m
 
-    # 3a. every model layout as a real .hex through compute_app_hash / signapp hash / signapp message
+    # 3a. as real .hex files through compute_app_hash / signapp hash / signapp message: every layout of
+    # the class "small"; of every other class a seeded sample, half of it files in address order (whole
+    # areas reach the hashing code in one piece), half anything
+    def in_order(b):
+        z, last = 0, -1
+        for r in b["file"]:
+            if r["t"] == "ela":
+                z = r["z"]
+            elif r["t"] == "data":
+                if (z << 16) + r["a"] < last:
+                    return False
+                last = (z << 16) + r["a"]
+        return True
+    per_class = ctx.pick(24, 800)
+    selected = []
+    for s in sizes:
+        idx = [i for i, b in enumerate(mlayouts) if b["size"] == s]
+        if s != "small":
+            rng.shuffle(idx)
+            ordered = [i for i in idx if in_order(mlayouts[i])][:per_class // 2]
+            idx = ordered + [i for i in idx if i not in set(ordered)][:per_class - len(ordered)]
+        selected += idx
     by_image = {}
-    for i, b in enumerate(mlayouts):
-        by_image.setdefault(ai.image_key(b), []).append(i)
-    for i, b in enumerate(mlayouts):
-        lay = ai.layout_from_model(b, ai.bytemap(rng), rng)
-        reports, hins, pareas = exec_layout(ctx, lay, "m%d" % i, i)
-        add(ai.trace_of_layout(0, lay, reports, hins, True, pareas),
+    for i in selected:
+        b = mlayouts[i]
+        by_image.setdefault((b["size"], ai.image_key(b)), []).append(i)
+    for k, i in enumerate(selected):
+        b = mlayouts[i]
+        lay = ai.concretise(b, rng)
+        reports, hins, pareas = exec_layout(ctx, lay, "m%d" % i, k)
+        cov_hash[b["size"]] += 1
+        add(ai.trace_of_layout(0, lay, reports, hins, b["size"] == "small", pareas),
             {"kind": "layout", "lay": lay, "reports": reports, "src": "model"})
 
-    # 3b. model sessions: contents realised by layouts of the model's images; every layout gets signed
-    image_keys = sorted(by_image)
-    cursor = {k: 0 for k in image_keys}
-    signed = set()
+    # images for a session / message sequence of the model: one model image (and one set of unit
+    # blocks) per content class, another layout of it for every image of that class
+    image_keys = {s: sorted(k for (sz, k) in by_image if sz == s) for s in sizes}
+    cursor = {k: 0 for k in by_image}
+    keyrot = [0]
 
-    def next_layout(key):
-        idxs = by_image[key]
-        j = idxs[cursor[key] % len(idxs)]
-        cursor[key] += 1
+    def next_layout(size, key):
+        idxs = by_image[(size, key)]
+        j = idxs[cursor[(size, key)] % len(idxs)]
+        cursor[(size, key)] += 1
         return j
+
+    def images_for(b):
+        size, iks = b["size"], image_keys[b["size"]]
+        classes = sorted(set(b["contents"]))
+        keys = {c: iks[(keyrot[0] + n) % len(iks)] for n, c in enumerate(classes)}
+        keyrot[0] += 1
+        maps = {c: ai.bytemap(rng) for c in classes}
+        blocks = {c: ai.unit_blocks(b["ulen"], rng) for c in classes}
+        chosen, lays = [], []
+        for c in b["contents"]:
+            j = next_layout(size, keys[c])
+            chosen.append(j)
+            lays.append(ai.concretise(mlayouts[j], rng, blocks[c], maps[c]))
+        if contents_of(lays) != list(b["contents"]):
+            raise core.MachineryError("concretisation does not realise the content classes %s" % b["contents"])
+        return chosen, lays
+
+    # 3b. model sessions (all size classes); the selected layouts get signed (thorough: all of the
+    # bigger classes, a 6 000 sample of the class small)
+    signed = set()
     order = list(range(len(msessions)))
     rng.shuffle(order)
-    n_sessions = ctx.pick(min(len(order), 300), min(len(order), 6000))
-    keyrot = 0
+    n_sessions = ctx.pick(min(len(order), 180), min(len(order), 2000))
     n_child = ctx.pick(3, 40)
     for pos, si in enumerate(order[:n_sessions]):
         b = msessions[si]
-        classes = sorted(set(b["contents"]))
-        keys = {c: image_keys[(keyrot + n) % len(image_keys)] for n, c in enumerate(classes)}
-        keyrot += 1
-        maps = {c: ai.bytemap(rng) for c in classes}
-        chosen, lays = [], []
-        for c in b["contents"]:
-            j = next_layout(keys[c])
-            chosen.append(j)
-            lays.append(ai.layout_from_model(mlayouts[j], maps[c], rng))
-        if contents_of(lays) != list(b["contents"]):
-            raise core.MachineryError("concretisation does not realise the content classes %s" % b["contents"])
+        chosen, lays = images_for(b)
         plan = [{"imgs": st["imgs"], "pub": st["pub"], "relative": rng.random() < 0.5,
                  "spaces": rng.random() < 0.3, "child": pos < n_child} for st in b["plan"]]
         t, infos = exec_session(ctx, lays, plan, "m%d" % si, rng)
         for st in plan:
+            cov_sign[b["size"]] += len(st["imgs"])
             signed.update(chosen[i - 1] for i in st["imgs"])
         add(t, {"kind": "session", "lays": lays, "plan": plan, "infos": infos, "src": "model"})
-    # the layouts no session signed yet: four per run, one run per session
-    rest = [i for i in range(len(mlayouts)) if i not in signed]
+    # the selected layouts no session signed yet: four per run, one run per session
+    rest = [i for i in selected if i not in signed]
+    big_rest = [i for i in rest if mlayouts[i]["size"] != "small"]
+    small_rest = [i for i in rest if mlayouts[i]["size"] == "small"]
+    rng.shuffle(small_rest)
+    rest = big_rest + small_rest[:ctx.pick(len(small_rest), 6000)]   # thorough: a sample of the small ones
     for n in range(0, len(rest), 4):
         chunk = rest[n:n + 4]
-        lays = [ai.layout_from_model(mlayouts[j], ai.bytemap(rng), rng) for j in chunk]
+        lays = [ai.concretise(mlayouts[j], rng) for j in chunk]
         plan = [{"imgs": list(range(1, len(chunk) + 1)), "pub": 1 + (n // 4) % 2,
                  "relative": rng.random() < 0.5, "spaces": False}]
         t, infos = exec_session(ctx, lays, plan, "bulk%d" % n, rng)
         signed.update(chunk)
+        for j in chunk:
+            cov_sign[mlayouts[j]["size"]] += 1
         add(t, {"kind": "session", "lays": lays, "plan": plan, "infos": infos, "src": "model-bulk"})
-    res.coverage["behaviours_replayed"] = len(mlayouts) + n_sessions
+    res.coverage["model_layouts_replayed"] = len(selected)
+    res.coverage["behaviours_replayed"] = len(selected) + n_sessions
     res.coverage["model_sessions_replayed"] = n_sessions
     res.coverage["sessions_run_in_a_child_interpreter_via___main__"] = min(n_child, n_sessions)
     res.coverage["model_layouts_signed_by_signonetime"] = len(signed)
@@ -277,37 +340,50 @@ def run(ctx):
             if st["out"]:
                 seen[st["out"]] = b["contents"][st["img"] - 1]
         return False
-    order.sort(key=lambda k: 0 if reuses(mauths[k]) else 1)
-    n_auth = min(len(order), ctx.pick(600, 20000))
+    n_auth = min(len(order), ctx.pick(400, 8000))
+    first = [k for k in order if reuses(mauths[k])][:(3 * n_auth) // 4]
+    order = first + [k for k in order if k not in set(first)]
     n_reuse = 0
     for ai_ in order[:n_auth]:
         b = mauths[ai_]
         n_reuse += 1 if reuses(b) else 0
-        classes = sorted(set(b["contents"]))
-        maps = {c: ai.bytemap(rng) for c in classes}
-        keys = {c: image_keys[(keyrot + n) % len(image_keys)] for n, c in enumerate(classes)}
-        keyrot += 1
-        lays = [ai.layout_from_model(mlayouts[next_layout(keys[c])], maps[c], rng) for c in b["contents"]]
-        if contents_of(lays) != list(b["contents"]):
-            raise core.MachineryError("concretisation does not realise the content classes %s" % b["contents"])
+        _chosen, lays = images_for(b)
         plan = [{"img": st["img"], "iter": st["iter"], "out": st["out"], "relative": rng.random() < 0.5}
                 for st in b["plan"]]
         pre = [{"found": bool(x["found"]), "gotiter": 7} for x in b["pre"]]
         t, infos = exec_auth(ctx, lays, pre, plan, "m%d" % ai_, rng)
+        cov_auth[b["size"]] += 1
         add(t, {"kind": "auth", "lays": lays, "pre": pre, "plan": plan, "infos": infos, "src": "model"})
     res.coverage["model_message_sequences_replayed"] = n_auth
     res.coverage["of_which_reuse_a_path_for_another_image"] = n_reuse
     res.coverage["behaviours_replayed"] += n_auth
+    res.coverage["size_classes"] = {s: {"unit_lengths": ulens[s], "layouts_hashed": cov_hash[s],
+                                        "images_signed_by_signonetime": cov_sign[s],
+                                        "message_sequences": cov_auth[s]} for s in sizes}
+    for s in sizes:
+        if not (cov_hash[s] and cov_sign[s] and cov_auth[s]):
+            raise core.MachineryError("size class %s not exercised on every path: %s" % (
+                s, res.coverage["size_classes"][s]))
 
-    # 4. random tier: 1..8 areas, record lengths 1..255, several zones
-    n_rand = ctx.pick(360, 9000)
+    # 4. random tier: 1..8 areas, record lengths 1..255, several zones; one in eight with area lengths
+    # on / next to the powers of two from 256 to 64 KiB
+    n_rand = ctx.pick(300, 5000)
+    n_boundary = 0
+
+    def rand_image(p_small=0.3, p_boundary=0.12):
+        x = rng.random()
+        if x < p_boundary:
+            return ai.random_layout(rng, boundary=True)
+        return ai.random_layout(rng, small=x < p_boundary + p_small)
     for i in range(n_rand):
         small = i % 3 == 0
-        lay = ai.random_layout(rng, small=small)
+        boundary = i % 8 == 1
+        lay = ai.random_layout(rng, small=small, boundary=boundary)
+        n_boundary += 1 if boundary else 0
         reports, hins, pareas = exec_layout(ctx, lay, "r%d" % i, i)
         add(ai.trace_of_layout(0, lay, reports, hins, small and lay.total() <= 40, pareas),
             {"kind": "layout", "lay": lay, "reports": reports, "src": lay.src})
-    n_rs = ctx.pick(60, 1200)
+    n_rs = ctx.pick(48, 1000)
     for i in range(n_rs):
         nimg = rng.randrange(1, 5)
         lays = []
@@ -316,7 +392,7 @@ def run(ctx):
                 base = rng.choice(lays)             # another file with the same bytes
                 lay = relayout(base, rng)
             else:
-                lay = ai.random_layout(rng, small=rng.random() < 0.3)
+                lay = rand_image()
             if not lay.mayrefuse:
                 lays.append(lay)
         plan = []
@@ -326,12 +402,12 @@ def run(ctx):
                          "spaces": rng.random() < 0.3})
         t, infos = exec_session(ctx, lays, plan, "r%d" % i, rng)
         add(t, {"kind": "session", "lays": lays, "plan": plan, "infos": infos, "src": "random"})
-    n_ra = ctx.pick(80, 2000)
+    n_ra = ctx.pick(80, 1500)
     fake_sig = "3006020101020101"
     for i in range(n_ra):
         lays = []
         while len(lays) < rng.randrange(1, 4):
-            lay = ai.random_layout(rng, small=rng.random() < 0.3)
+            lay = rand_image()
             if not lay.mayrefuse:
                 lays.append(lay)
         pre = [{"found": rng.random() < 0.4, "gotiter": rng.randrange(65536),
@@ -344,6 +420,7 @@ def run(ctx):
         add(t, {"kind": "auth", "lays": lays, "pre": pre, "plan": plan, "infos": infos, "src": "random"})
     res.coverage["random_message_sequences"] = n_ra
     res.coverage["random_layouts"] = n_rand
+    res.coverage["random_layouts_with_power_of_two_boundary_lengths"] = n_boundary
     res.coverage["random_sessions"] = n_rs
 
     # 5. TLC judges every recorded execution (and must reject corrupted copies of accepted ones)
@@ -502,7 +579,8 @@ def judge(ctx, res, traces, meta):
                                                   " child" if m["plan"][0].get("child") else ""))
         if v["ok"]:
             accepted += 1
-            if sum(1 for x in accepted_traces if x["kind"] == t["kind"]) < 200:
+            if (t["kind"] != "layout" or t["small"]) and \
+                    sum(1 for x in accepted_traces if x["kind"] == t["kind"]) < 200:
                 accepted_traces.append(t)
             if v.get("clause"):
                 drift += 1
@@ -533,7 +611,9 @@ def judge(ctx, res, traces, meta):
                               clause, via, len(m["lay"].areas), len(m["lay"].records), m["lay"].klass(),
                               bytes(t["expected"]).hex(),
                               bytes(rep.get("digest", [])).hex() or "<nothing>",
-                              (" (%s, exit %s)" % (rep.get("exc"), rep.get("exit")) if not rep.get("ok", True) else "")),
+                              (" (%s, exit %s)" % (rep.get("exc"), rep.get("exit")) if not rep.get("ok", True) else "")
+                              + "; area lengths %s, bytes fed to SHA-256 per call %s" % (
+                                  [len(a[2]) for a in m["lay"].areas], t.get("hinlens"))),
                           {"verdict": v, **replay_data(m)})
         else:
             run = t["runs"][at - 1] if 1 <= at <= len(t["runs"]) else {"imgs": []}
